@@ -309,6 +309,12 @@ func zzC10Route() {
 	jsonMode := vBool("jsonResponse")
 	stateless := vBool("stateless")
 	c := zzConnect(nil, stateless, jsonMode)
+	// a stateful endpoint whose server suppresses session ids (GetSessionID returns ""): each POST is served by a
+	// session nobody can address afterwards — like a stateless one it can never receive the answer to a call it sends
+	unaddressable := !stateless && vBool("sessionIDsSuppressed")
+	if unaddressable {
+		c.sessionID = ""
+	}
 	// two in-flight requests, each on its own exchange, plus the standalone stream (attached or not)
 	wA, wB, wS := zzNewExch("A"), zzNewExch("B"), zzNewExch("standalone")
 	idA, idB := jsonrpc2.Int64ID(1), jsonrpc2.StringID("1") // same text, different JSON types
@@ -376,8 +382,11 @@ func zzC10Route() {
 		return
 	}
 	switch {
-	case kind == 2 && (stateless):
-		vAssert(err != nil && nA+nB+nS == 0, "C10.no-server-requests-on-stateless")
+	case kind == 2 && (stateless || unaddressable):
+		// the answer could never come back (it would arrive in a session that does not know the call): refused at once,
+		// so the call completes with an error instead of hanging (C01)
+		vAssert(err != nil && errors.Is(err, jsonrpc2.ErrRejected) && nA+nB+nS == 0, "C01.unanswerable-server-request-refused-at-once")
+		vReach("unanswerable")
 	case kind == 0:
 		// a response goes to the exchange of the request it answers, and nowhere else
 		if rel == 0 {
